@@ -143,6 +143,12 @@ HISTORY = {
     "C20-r12-2": "round 12. successive derivatives by position under retain_names=False: caught by C06 (option dimension)",
     "C16-r3G2-2": "round 3. patch rebased onto the later repository fix of to_sympy (display signs); still caught by C16",
     "C02-r7-2": "round 7. first run: missed; the carrier rider now also carries the integers as int16 / uint8 / int8 / uint16 whenever every single power fits that type, and four fixed cases (e.g. q0*q1 at (20, 20)) make sure a product across arguments that does not fit is exercised in every run",
+    "C08-r13-1": "round 13 (session 3, hard mode, one change per property). first run: missed; the negative half now first calls every registered function that shares its __name__ with an unregistered one of another numpy module (diagonal / outer / matmul ...), so dispatcher state left by served calls is in place when the namesake must be refused",
+    "C06-r13-1": "round 13. first run: missed by C06, C15 and C20; new directed family: indeterminates stored in non-canonical order (q1 before q0), one only in a linear term, differentiated several times in one call, mostly under retain_names=False",
+    "C09-r13-1": "round 13. first run: missed; tile now also draws reps made only of ones, longer than the array has dimensions ([1], [1,1], [1,1,1], [1,1,1,1])",
+    "C03-r13-1": "round 13. first run: missed by C03 and C17; M-WF now writes into the matrix returned by .exponents (its own copy), re-reads the exponents and restores the write: what a polynomial reports may not depend on what a caller did to an earlier answer",
+    "C11-r13-1": "round 13. first run: missed; isclose / allclose now get integer operands of size 250000 .. 3e7 that are 0, 1 or 2 apart under the default tolerances (rtol*|b| > 1 there)",
+    "C16-r13-1": "round 13. first run: caught by C18 (glexsort itself, where the change sits), missed by C16, C07, C20; C16 now prints polynomials in 13 indeterminates with powers 20-27 and in 3 indeterminates with powers up to 54000 (order of printed terms compared with the model order)",
     "C06-2": "first run: caught by C06, missed by C15; C15's derivative entry now differentiates with respect to several variables",
 }
 REJECTED = [
